@@ -26,6 +26,8 @@ TINY = float(np.finfo(np.float64).tiny)
 MAXF = float(np.finfo(np.float64).max)
 RULES = ['WienerUpper', 'WienerLower', 'HashinUpper', 'HashinLower', 'Labyrinth']
 RT = '(1 # 68719476736)'          # 2^-36
+# coq/C17/Corr.v builds the two float constants from these formulas
+assert Fraction(TINY) == Fraction(1, 2 ** 1022) and Fraction(MAXF) == Fraction(2 ** 1024 - 2 ** 971)
 
 HEADER = '''From Coq Require Import QArith List ZArith.
 Require Import Kawin.Common.Ops Kawin.Common.Vec Kawin.Common.Out Kawin.C17.Model Kawin.C17.Corr.
@@ -139,7 +141,7 @@ def model_term_A(c, out):
     r = out['res']
     impl = '{| a_wu := %s; a_wl := %s; a_hu := %s; a_hl := %s; a_lab := %s |}' % tuple(qlist(fin(x)) for x in r)
     return 'check17a %s %s %s %s %s %s %s %s' % (
-        RT, qlit(TINY), qlit(MAXF), pw_term(c['n'], c['fr'], out['pf']), natlit(c['e']),
+        RT, 'tinyB', 'maxfB', pw_term(c['n'], c['fr'], out['pf']), natlit(c['e']),
         qlistlist(c['mob']), qlist(c['fr']), impl)
 
 
@@ -565,7 +567,7 @@ def model_term_B(c, out):
     impl = []
     for (cv, cerr) in out['cached']:
         impl.append('None' if cerr is not None else '(Some %s)' % qlist(fin(cv)))
-    return 'check17b %s %s %s %s [%s] [%s] [%s]' % (RT, qlit(TINY), qlit(MAXF), natlit(len(c['elements'])),
+    return 'check17b %s %s %s %s [%s] [%s] [%s]' % (RT, 'tinyB', 'maxfB', natlit(len(c['elements'])),
                                                    '; '.join(tbl), '; '.join(hist), '; '.join(impl))
 
 
